@@ -115,7 +115,9 @@ CHECKS = {
              "decoded by the hand-optimised reader and by the declarative template and compared field by field; the template re-encoding is compared byte for byte; "
              "the tracker's normalisation is compared with a plain-Python reference on the network and the cache-file path. Payloads are produced by an "
              "independent reference wire encoder (fixed header, prim parameters, section bits and simple sections hand-packed from the protocol layout) and the "
-             "template's own encoding of the same value must be byte-identical (template-encode, template-encode-raises).",
+             "template's own encoding of the same value must be byte-identical (template-encode, template-encode-raises). Wire-first degenerate contents (zero-length / "
+             "one byte / length-1 / exact / length+1, prefix and blob consistent) for every length-prefixed, NUL-terminated, fixed-size or to-EOF section and every "
+             "ExtraParams entry are judged by the same rule (if the template decodes and re-encodes it, the fast reader must agree).",
         note="Domain = what the reference encoder emits plus byte mutations of it; TextureEntry, ExtraParams and particle sections are encoded by sub-templates "
              "both decoders share, so a defect common to both inside those is visible only through the re-encode clause; a mutated payload is judged only if the template decodes it and re-encodes "
              "it to itself; PCodes outside the enum are counted, not asserted; enums by value, dataclasses by fields, lazy proxies forced, floats bit-exact; decode "
@@ -131,12 +133,15 @@ CHECKS = {
              "set_filter(wider) with prefixes {none, clear, log.clear, pause.resume, 3 logs} on ring buffer 2, executed without state deduplication (2,160 "
              "histories); state identity includes the bound of every entry container. Log events are delivered through every public entry: logger.log_* (ring "
              "buffers 1-3), add_log_entry directly, and a WrappingMessageLogger fan-out with a second logger whose pause/resume is in the alphabet; the view "
-             "invariant is checked for each logger. Around it: every depth<=2 expression tree and every unparenthesised chain up to length 4 over 7 leaf filters x 11 "
+             "invariant is checked for each logger. Export/import and freeze/thaw compare the message header type-exactly (acks tuple, extra bytes, flags, packet id "
+             "incl. None, direction, dropped/synthetic, meta) and differentially: every leaf filter of the selector table with bare / == / != x 18 literals must "
+             "give the same verdict on each of 15 entries before and after export+import, freeze+thaw and freeze+export+import. Around it: every depth<=2 expression tree and every unparenthesised chain up to length 4 over 7 leaf filters x 11 "
              "entries x both short-circuit modes (root vs children vs denotation); every operator x literal kind x selector shape x 12 entries against a plain "
              "type-table reference, also through add_log_entry/set_filter; freeze/thaw and export/import of one message per template plus EQ and HTTP entries.",
         note="Chains follow the grammar as written (right-nested, no precedence, ! binds to the next term); a bare selector means presence/truthiness; the verdict is "
              "not pinned (only 'no exception') for a few str/bytes operand mixes listed in the harness; 'retained' = ring buffer plus entries that aged out while "
-             "visible and matched every later filter; fnmatch, the C01 codec, hmc.msggen and mitmproxy test flows (uuid4/time pinned) trusted."),
+             "visible and matched every later filter; fnmatch, the C01 codec, hmc.msggen and mitmproxy test flows (uuid4/time pinned) trusted; open known finding: the "
+             "export's LLSD form loses vector / stringy-bytes / tuple field types, so == / != verdicts on such fields change after import."),
     "C05": dict(
         category="model_checking", design_ref="DESIGN.md §4 C05",
         technique="explicit-state BFS (level-synchronous, deviation-bounded staircase, canonical state hashing) over the real ProxiedCircuit under a virtual "
@@ -239,7 +244,10 @@ CHECKS = {
              "length 3 (4 thorough) through the real IPCInterceptionAddon._pump_callbacks counting resume() calls. Owners that acquire the flow through "
              "wait_for() / subscribe_async() on the session- and region-level http_message_handler (default take) and take=False observers (3,168 cases); cap "
              "attribution (name, type, base URL, session id, region address) of the handed-back state on the request and the response leg for viewer, browser and "
-             "the proxy's own (X-Hippo-Injected) requests against an independent cap table.",
+             "the proxy's own (X-Hippo-Injected) requests against an independent cap table. Copy + replay (the addon_examples/message_mirror.py pattern) with the "
+             "real proxy-side _pump_callbacks and request hook in the loop (only replay.client stubbed): every intercepted flow object resumed exactly once per "
+             "interception, copies have fresh ids; preempt() after {never taken, taken and released in the hook, taken and released later}: exactly one preempt "
+             "item carrying the injected response.",
         note="Waiter ownership is taken from the public contract (dispatched to a default-take waiter means owned until its resume()). A taken, never-resumed flow stays with its taker; faults are Python exceptions at the listed points; pickling/OS-queue failure, a real mitmproxy master, TLS "
              "and sockets are out of scope; mitmproxy.ctx.master stubbed for replay/shutdown; ownership is per flow (first successful take() until the one successful resume()); "
              "includes the owner of a taken flow's cap data (region/session) being dropped and garbage-collected before release; wrapper-cap requests: an addon's "
@@ -249,13 +257,15 @@ CHECKS = {
         technique="explicit-state BFS of event-queue poll rounds through the real MITMProxyEventManager.pump_proxy_event (hmc.explore.bfs, canonical-state dedup, "
                   "determinism rechecks) against a plain-Python reference model",
         text="A poll round is {viewer ack current | repeated} x {simulator answers 1-2 events of 6 kinds, undef, 502/499/404} x {addon swallows none/first/all} x "
-             "{delivered | lost}, plus injections (inject_event, inject_message) and region teardown, driven through the real event manager, EventQueueManager, "
+             "{delivered | lost | delivered after the region was torn down between the request leg and the simulator's answer}, plus injections (inject_event, "
+             "inject_message) and region teardown, driven through the real event manager, EventQueueManager, "
              "register_region, LLSDMessageSerializer and SLMITMAddon hooks; the reference model predicts the exact body each poll must return and the region table "
              "after it. Quick depth 4 / 3 deviations; thorough depth 6 (delivery) and depth 4 (region announcements).",
         note="In-memory queues with pickle round trip, virtual loop, MockTransport; simulator ids strictly increase, events never re-sent, no empty event list, events "
              "well-formed; a stale poll repeats the immediately preceding ack; no two simulators share a seed URL; teardown may drop pending injections; injected events "
              "are only required to keep FIFO order among themselves; the wake-up PlacesQuery is observed, not demanded; 2-3 regions with independent event queues; "
-             "announcements may reuse a known handle at a new address or a known address with a new handle."),
+             "announcements may reuse a known handle at a new address or a known address with a new handle; mid-poll teardown is enumerated once per region, for the "
+             "emptied-response and single-announcement answers."),
     "C19": dict(
         category="model_checking", design_ref="DESIGN.md §4 C19",
         technique="explicit-state BFS with deviation bounding over the real client endpoint under a virtual loop/clock (history-replay successors, canon-deduplicated "
